@@ -375,6 +375,23 @@ theorem C04_aoef_loaded_project (d : Doc) (dir : Option Paths.PPath) (x : Annota
       exact ⟨t, ht, htu⟩
     · simp at h
 
+/-! ### the numbers on the AOEF path -/
+
+/-- loading decides on the numbers of the document exactly as the constructors decide on the same
+    numbers: a clip iff start ≤ end, every score / affinity / tag probability iff it is in [0,1] -/
+theorem C04_aoef_numbers_agree :
+    (∀ s e, aoefClipOk s e = true ↔ s ≤ e) ∧
+    (∀ a sc, aoefMatchNumbersOk a sc = true ↔ (0 ≤ a ∧ a ≤ 1) ∧ (0 ≤ sc ∧ sc ≤ 1)) ∧
+    (∀ x, aoefEvalScoreOk x = true ↔ 0 ≤ x ∧ x ≤ 1) ∧
+    (∀ x t0 t1, aoefPredictionOk x t0 t1 = true ↔ (0 ≤ x ∧ x ≤ 1) ∧ (0 ≤ t0 ∧ t0 ≤ 1) ∧ (0 ≤ t1 ∧ t1 ≤ 1)) ∧
+    (∀ t0 t1, aoefClipTagsOk t0 t1 = true ↔ (0 ≤ t0 ∧ t0 ≤ 1) ∧ (0 ≤ t1 ∧ t1 ≤ 1)) := by
+  refine ⟨fun s e => ?_, fun a sc => ?_, fun x => ?_, fun x t0 t1 => ?_, fun t0 t1 => ?_⟩
+  · simp [aoefClipOk, aoefClipArgs, C04_clip_iff]
+  · simp [aoefMatchNumbersOk, aoefMatchArgs, C04_unit_iff]
+  · simp [aoefEvalScoreOk, aoefEvalScoreArg, C04_unit_iff]
+  · simp [aoefPredictionOk, aoefPredictionArgs, C04_unit_iff, and_assoc]
+  · simp [aoefClipTagsOk, aoefClipTagArgs, C04_unit_iff]
+
 /-! ### non-vacuity -/
 example : clipEvalOk "c" "c" ["a0", "a1"] ["p0"] [(some "p0", some "a0"), (none, some "a1")] = true := by decide
 example : clipEvalOk "c" "c" ["a0", "a1"] ["p0"] [(some "p0", some "a0")] = false := by decide
